@@ -146,7 +146,8 @@ func DecodeInt33AsInt64(r io.ByteReader) (ret int64, bytesRead uint64, err error
 	}
 	// Over flow checks.
 	// fixme: can be optimized.
-	if bytesRead > maxVarintLen33 {
+	if bytesRead > maxVarintLen33 || b&int33Mask != 0 {
+		// longer than 5 bytes (the 5th byte still has its continuation bit set)
 		return 0, 0, errOverflow33
 	} else if unused := b & 0b01100000; bytesRead == maxVarintLen33 && ret < 0 && unused != 0b01100000 {
 		return 0, 0, errOverflow33
